@@ -104,24 +104,51 @@ def splitMols (ws : List String) : List (List String) :=
       | [] => []
       | cur :: rest => (cur ++ [w]) :: rest) []).reverse
 
+def optInts? (s : String) : Option (List (Option Int)) :=
+  if s == "-" then some [] else (s.splitOn ",").mapM (fun t => if t == "_" then some none else t.toInt?.map some)
+
+/-- slots separated by '+': `_` = not given, `=` = the empty array, else comma separated integers -/
+def slots? (s : String) : Option (List (Option (List Int))) :=
+  if s == "-" then some [] else (s.splitOn "+").mapM (fun t =>
+    if t == "_" then some none else if t == "=" then some (some []) else (ints? t).map some)
+
+def parseEnts? (s : String) : Option Ents :=
+  if s == "-" then some .nil else do
+    let (ents, rest) ← parseEntToks (s.splitOn ",")
+    if rest.isEmpty then pure ents else none
+
+def finish (r : MolO) (mols : List MolO) (n : Nat) : String :=
+  let shared := (mols.map (fun s => (sharedIds r s).length)).sum
+  let below := mols.all (belowB n)
+  s!"obs={showObs (observe r)}#shared={shared}#below={if below then 1 else 0}"
+
+/-- requests:
+  copy   <n> <cls> 0 0 - - -                                   M <mol>
+  copyas <n> <cls'> <name,charge,mult|_> <attrib ents|-> <array overrides> <fills> -   M <mol>
+  concat <n> <cls> 0 0 - - -                                   M <mol> M <mol> …   (any number)
+  join   <n> <cls> <i1> <i2> <scalars> <bondFields> <coords>   M <mol> M <mol> -/
 def handle (payload : String) : String :=
   match words payload with
-  | route :: n :: cls :: i1 :: i2 :: sc :: bf :: co :: rest =>
-    match n.toNat?, cls.toNat?, i1.toNat?, i2.toNat?, ints? sc, ints? bf, ints? co, (splitMols rest).mapM parseMol? with
-    | some n, some cls, some i1, some i2, some sc, some bf, some co, some mols =>
-      let result : Option MolO :=
-        match route, mols with
-        | "copy", [s] => some (deepCopy repaired n s)
-        | "concat", [s1, s2] => some (concat repaired n cls s1 s2)
-        | "join", [s1, s2] => some (join repaired n cls s1 s2 i1 i2 sc bf co)
-        | _, _ => none
-      match result with
-      | none => "err:bad-route"
-      | some r =>
-        let shared := (mols.map (fun s => (sharedIds r s).length)).sum
-        let below := mols.all (belowB n)
-        s!"obs={showObs (observe r)}#shared={shared}#below={if below then 1 else 0}"
-    | _, _, _, _, _, _, _, _ => "err:bad-request"
+  | route :: n :: cls :: a1 :: a2 :: a3 :: a4 :: a5 :: rest =>
+    match n.toNat?, cls.toNat?, (splitMols rest).mapM parseMol? with
+    | some n, some cls, some mols =>
+      match route, mols with
+      | "copy", [s] => finish (deepCopy repaired n s) mols n
+      | "copyas", [s] =>
+        match optInts? a1, parseEnts? a2, slots? a3, slots? a4 with
+        | some sc, some oat, some arrs, some fills =>
+          let ov : Override := { scalars := sc, attrib := oat, arrays := arrs, fills := fills.map (·.getD []) }
+          let r := copyAs repaired n cls ov s
+          -- identities of the caller's `attrib=` containers are not the source's: they are not counted as shared
+          finish r mols n
+        | _, _, _, _ => "err:bad-request"
+      | "concat", _ => finish (concatN repaired n cls mols) mols n
+      | "join", [s1, s2] =>
+        match a1.toNat?, a2.toNat?, ints? a3, ints? a4, ints? a5 with
+        | some i1, some i2, some sc, some bf, some co => finish (join repaired n cls s1 s2 i1 i2 sc bf co) mols n
+        | _, _, _, _, _ => "err:bad-request"
+      | _, _ => "err:bad-route"
+    | _, _, _ => "err:bad-request"
   | _ => "err:bad-request"
 
 end Molli.Driver.C06
